@@ -808,8 +808,11 @@ class Zone(dns.transaction.TransactionManager):
         """
         if self.relativize:
             name = dns.name.empty
+        elif self.origin is None:
+            # No origin is known, so there cannot be an SOA at it (this is also what
+            # a relativized zone without an origin reports).
+            raise NoSOA
         else:
-            assert self.origin is not None
             name = self.origin
         if self.get_rdataset(name, dns.rdatatype.SOA) is None:
             raise NoSOA
